@@ -381,9 +381,12 @@ def c16(res, tier, deadline):
                               "detail": "explorer process ended with %s: %s" % (small.sig_name(rc), se[-300:])})
     # free-running pass under the real ThreadSanitizer
     iters = "300" if tier == "quick" else "3000"
+    free_timeout = 300 if tier == "quick" else 1500
     env = {"TSAN_OPTIONS": "halt_on_error=1 exitcode=66 report_signal_unsafe=0"}
     for name in ("free_gcc", "free_clang"):
-        rc, so, se, dt = small.run(b[name], [iters], timeout=3000, env=env)
+        # normally seconds; a run that does not end (a corrupted structure
+        # traversed forever is a typical outcome of a race) is a candidate
+        rc, so, se, dt = small.run(b[name], [iters], timeout=free_timeout, env=env)
         res.transitions += 1
         ok = rc == 0 and "FREERUN" in so
         res.bounds.append({"run": "real ThreadSanitizer, free running (%s)" % name, "complete": True,
@@ -407,7 +410,7 @@ def c16(res, tier, deadline):
         seen.add(c["case"])
         binary = b.get(c.get("binary", ""), b["sched"])
         e = env if c["kind"] == "tsan" else None
-        r1 = small.run(binary, c["replay_args"], timeout=3000, env=e)
+        r1 = small.run(binary, c["replay_args"], timeout=free_timeout if c["kind"] == "tsan" else 3000, env=e)
         bad = (r1[0] != 0) or ("CAND\t" in r1[1])
         if bad:
             res.confirmed.append(c)
